@@ -243,19 +243,40 @@ func c06Canonical(c *core.Ctx) {
 		}
 		return true
 	})
-	buf, parts := c06BufferParts(f, defs, roots)
-	if buf == nil {
-		c.Undecide(rule, cons+"|canonical request parts", pos(c, f.Body), "cannot identify the buffer whose digest is returned")
+	// everything that flows into the returned digest: buffer writes, joined slices, arrays of
+	// parts written in a loop, locals — conditions are not followed
+	parts := c06ValueClosure(f, roots)
+	if len(parts) == 0 {
+		c.Undecide(rule, cons+"|canonical request parts", pos(c, f.Body), "cannot identify what the returned digest is computed from")
 		return
 	}
 	// roles
+	// a role predicate holds for a node or, when the node is the body of a declared function,
+	// for one of the same-package functions it calls (a helper split in two)
+	overReach := func(g *flow.Func, n ast.Node, pred func(h *flow.Func, x ast.Node) bool) bool {
+		if pred(g, n) {
+			return true
+		}
+		if n == ast.Node(g.Body) {
+			for _, h := range reach(g, 2) {
+				if h.Body != g.Body && pred(h, h.Body) {
+					return true
+				}
+			}
+		}
+		return false
+	}
 	pathOf := func(g *flow.Func, n ast.Node) bool {
-		return c06MentionsField(g, n, uPath, uRawPath, uOpaque) ||
-			c06MentionsCall(g, n, "(*net/url.URL).EscapedPath", "(*net/url.URL).RequestURI")
+		return overReach(g, n, func(h *flow.Func, x ast.Node) bool {
+			return c06MentionsField(h, x, uPath, uRawPath, uOpaque) ||
+				c06MentionsCall(h, x, "(*net/url.URL).EscapedPath", "(*net/url.URL).RequestURI")
+		})
 	}
 	queryOf := func(g *flow.Func, n ast.Node) bool {
-		return c06MentionsField(g, n, uRawQuery, queryF) ||
-			c06MentionsCall(g, n, "(*net/url.URL).Query", "(*net/url.URL).RequestURI")
+		return overReach(g, n, func(h *flow.Func, x ast.Node) bool {
+			return c06MentionsField(h, x, uRawQuery, queryF) ||
+				c06MentionsCall(h, x, "(*net/url.URL).Query", "(*net/url.URL).RequestURI")
+		})
 	}
 	viaCallee := func(e ast.Expr, pred func(g *flow.Func, n ast.Node) bool) bool {
 		if pred(f, e) {
@@ -324,7 +345,7 @@ func c06Canonical(c *core.Ctx) {
 		collect = func(g *flow.Func, roots []ast.Expr, depth int) {
 			for _, e := range c06ValueClosure(g, roots) {
 				flows = append(flows, src{g, e})
-				if depth >= 2 {
+				if depth >= 3 {
 					continue
 				}
 				for _, call := range calls(e, false) {
@@ -333,7 +354,7 @@ func c06Canonical(c *core.Ctx) {
 						continue
 					}
 					h := c06FuncDeclOf(c, fnObj)
-					if h == nil || !pathOf(h, h.Body) {
+					if h == nil {
 						continue
 					}
 					seenFn[fnObj] = true
@@ -670,11 +691,7 @@ func c06Sign(c *core.Ctx) {
 		c.Errorf("%s: anchor: SigningContext.sign does not assign SigningContext.Signature", rule)
 		return
 	}
-	buf, parts := c06BufferParts(f, defs, roots)
-	if buf == nil {
-		c.Undecide(rule, cons+"|string to sign", pos(c, at), "cannot identify the buffer from which the signature is computed")
-		return
-	}
+	parts := c06ValueClosure(f, roots)
 	hashed, timed := 0, 0
 	for _, p := range parts {
 		r := c06Resolve(f, defs, p)
@@ -834,6 +851,19 @@ func c06HashBody(c *core.Ctx) {
 				return true
 			}
 		}
+		// a same-package helper handed the request whose results are computed from the bytes
+		// it reads from the request's Body (`digest, e := bodyDigest(req)`)
+		if fo, ok := f.Callee(call).(*types.Func); ok && fo.Pkg() == f.Pkg.Types {
+			takesReq := false
+			for _, a := range call.Args {
+				if tv, ok := f.Info.Types[a]; ok && tv.Type != nil && tv.Type.String() == "*net/http.Request" {
+					takesReq = true
+				}
+			}
+			if h := c06FuncDeclOf(c, fo); takesReq && h != nil && h.Body != f.Body {
+				return c06ReturnsBodyBytes(h, reqBodyF)
+			}
+		}
 		return false
 	}
 	ast.Inspect(f.Body, func(x ast.Node) bool {
@@ -985,6 +1015,80 @@ func c06HashBody(c *core.Ctx) {
 	} else {
 		c.Discharge(rule, cons, pos(c, f.Body), sprintf("%d header-sourced assignment(s) of BodyHash, all only with verify == false", n))
 	}
+}
+
+// c06ReturnsBodyBytes reports whether a non-error result of h is computed from data read from
+// the Body of a request (io.ReadAll(req.Body), io.Copy(&buf, req.Body) ...).
+func c06ReturnsBodyBytes(h *flow.Func, reqBodyF *types.Var) bool {
+	from := map[types.Object]bool{}
+	reads := func(call *ast.CallExpr) bool {
+		for _, a := range call.Args {
+			if c06MentionsField(h, a, reqBodyF) {
+				return true
+			}
+		}
+		return false
+	}
+	ast.Inspect(h.Body, func(x ast.Node) bool {
+		switch t := x.(type) {
+		case *ast.AssignStmt:
+			if len(t.Rhs) == 1 {
+				if call, ok := ast.Unparen(t.Rhs[0]).(*ast.CallExpr); ok && reads(call) {
+					if o := c06Obj(h, t.Lhs[0]); o != nil {
+						from[o] = true
+					}
+				}
+			}
+		case *ast.CallExpr:
+			if reads(t) {
+				for _, a := range t.Args {
+					if c06MentionsField(h, a, reqBodyF) {
+						continue
+					}
+					a = ast.Unparen(a)
+					if u, ok := a.(*ast.UnaryExpr); ok && u.Op == token.AND {
+						a = ast.Unparen(u.X)
+					}
+					if v, ok := c06Obj(h, a).(*types.Var); ok && !v.IsField() && !isParam(h, v) {
+						from[v] = true
+					}
+				}
+			}
+		}
+		return true
+	})
+	if len(from) == 0 {
+		return false
+	}
+	var rets []ast.Expr
+	ast.Inspect(h.Body, func(x ast.Node) bool {
+		switch t := x.(type) {
+		case *ast.FuncLit:
+			return false
+		case *ast.ReturnStmt:
+			for _, r := range t.Results {
+				if tv, ok := h.Info.Types[r]; ok && tv.Type != nil && !isErrorTypeC06(tv.Type) && !tv.IsNil() && tv.Value == nil {
+					rets = append(rets, r)
+				}
+			}
+			if len(t.Results) == 0 && h.Type != nil && h.Type.Results != nil {
+				for _, fld := range h.Type.Results.List {
+					for _, nm := range fld.Names {
+						if o := h.Info.Defs[nm]; o != nil && !isErrorTypeC06(o.Type()) {
+							rets = append(rets, nm)
+						}
+					}
+				}
+			}
+		}
+		return true
+	})
+	for _, e := range c06ValueClosure(h, rets) {
+		if c06Mentions(h, e, from) {
+			return true
+		}
+	}
+	return false
 }
 
 // ---------------------------------------------------------------------------------------
